@@ -62,6 +62,9 @@ func bigFixedCases(seed uint64) []xzCase {
 		{ID: "big6", LC: 3, LP: 0, PB: 2, DictCap: 1 << 20, Check: "crc64", Matcher: 0, Family: "randzeros", N: 2<<20 + 400123, Part: "one", Seed: seed + 7},
 		{ID: "big7", LC: 0, LP: 0, PB: 0, DictCap: 65536, BufSize: 273, Check: "crc32", Matcher: 0, Family: "randzeros", N: 3<<20 + 7, Part: "one", Seed: seed + 8},
 		{ID: "big4", LC: 3, LP: 0, PB: 2, DictCap: 0, Check: "default", Matcher: 1, Family: "text", N: 300000, Part: "one", Seed: seed + 5},
+		// one match in every distance slot up to 64 MiB (pairs of markers in zeros at distances
+		// just above 2^k and 3*2^(k-1)): the writer's distance coder including its largest slots
+		{ID: "big8", LC: 3, LP: 0, PB: 2, DictCap: 1 << 26, Check: "crc32", Matcher: 0, Family: "farmarks", N: 1<<26 + 20000, Part: "one", Seed: seed + 9},
 	}
 }
 
